@@ -46,6 +46,8 @@ def strategy(tier):
         "history": st.lists(step, min_size=2, max_size=5),
         # a symbolic link to the first subdirectory, followed (input.follow_symlinks) or not
         "alias": st.sampled_from([None, None, "follow", "nofollow"]),
+        # a subdirectory with several hundred entries, its only CMake file sorting last
+        "bigdir": st.sampled_from([False, False, False, True]),
     })
 
 
@@ -95,6 +97,13 @@ def evaluate(case):
     with S.Sandbox("c17") as sb:
         home = sb.path("loc1", "in")
         S.materialize(tree, home)
+        if case.get("bigdir") and not case["lone"]:
+            big = os.path.join(home, "zz_vendor")
+            os.makedirs(big)
+            for k in range(700):
+                open(os.path.join(big, f"src_{k:04d}.c"), "w").close()
+            with open(os.path.join(big, "zzz_last.cmake"), "w") as f:
+                f.write("function(vendor_fn a)\nendfunction()\n")
         cfg = sb.path("settings.yaml")
         with open(cfg, "w") as f:
             f.write("rst:\n  file_extensions_in_titles: %s\n" % ("true" if case["ext"] else "false"))
@@ -255,6 +264,8 @@ def evaluate(case):
             res.labels.append("settings:exclude-patterns")
         if alias:
             res.labels.append("symlinked-directory:" + alias)
+        if case.get("bigdir") and not case["lone"]:
+            res.labels.append("directory-with-700-entries")
         if shared_excluded:
             res.labels.append("shared-top-index-excluded")
         special = {"prefilled-whitespace-twin", "via-symlinked-parent", "prefilled-output", "cwd-inside-sub", "moved", "cwd-rel", "cwd-dotslash", "cwd-updown", "cwd-dot", "others-before", "others-both", "api-successive"}
